@@ -1,9 +1,9 @@
 import vp
-FAMS = {1: ("long_identifier", "8,510,511,512,513,700"), 2: ("long_number", "9,100,511,512,600"), 3: ("long_string", "3,509,510,511,512,513,800"),
-        4: ("comments", "5,600,5000"), 5: ("macro_body", "16,1000,1020,1024,1030,2000"), 6: ("macro_args", "4,120,130,255,260,1020,1030,1100"),
+FAMS = {1: ("long_identifier", "8,31,32,33,63,64,65,127,128,129,255,256,257,510,511,512,513,700,1023,1024,1025"), 2: ("long_number", "9,31,32,33,63,64,65,100,127,128,129,255,256,257,511,512,600"), 3: ("long_string", "3,127,128,129,255,256,257,509,510,511,512,513,800,1023,1024,1025"),
+        4: ("comments", "5,600,5000"), 5: ("macro_body", "16,1000,1020,1024,1030,2000"), 6: ("macro_args", "4,31,32,33,63,64,65,120,127,128,129,130,255,260,511,512,513,1020,1030,1100"),
         7: ("define_recursion", "3,126,127,128,129,200"), 8: ("paren_depth", "4,63,64,65,400,20000"), 9: ("extreme_operands", "1"), 10: ("many_operands", "2,3,4,5,8,40"),
         11: ("conditional_depth", "3,63,64,65,5000"), 13: ("include_recursion", "1"), 14: ("prefix_operators", "3,63,64,65,100000"),
-        15: ("backslashes", "2,254,510,512,1022,1026,8000")}
+        15: ("backslashes", "2,126,127,128,129,254,255,256,257,510,512,1022,1023,1024,1025,1026,8000")}
 def jobs(tier):
     return [vp.Job("robust_asm.%s" % nm, "robust_asm.cpp", {"FAMILY": f, "LENGTHS": lens}, extra_bc=["naken_asm"], max_paths=5000, timeout=900, min_completed=1, max_steps=60000000, max_violations=30)
             for f, (nm, lens) in sorted(FAMS.items())]
